@@ -93,8 +93,55 @@ fn body(threads: usize, pairs: usize, fresh: bool, inbound: bool, cm: ClockMode,
     })
 }
 
+/// Entries built one after the other at t0, the clock advanced by `rt_ms` (still inside the
+/// bucket), then exited by `threads` threads at the same time: the completion and RESPONSE-TIME
+/// totals must be the sums over the threads (minimum response time = rt_ms).
+fn exits_with_rt(threads: usize, inbound: bool, rt_ms: u64, second_bucket: bool) -> Body {
+    Arc::new(move || {
+        clock::set_ms(T0_MS + 250);
+        let res = "c14-res".to_string();
+        let tt = if inbound { TrafficType::Inbound } else { TrafficType::Outbound };
+        let entries: Vec<_> = (0..threads).map(|_| EntryBuilder::new(res.clone()).with_traffic_type(tt).build().expect("no rules loaded")).collect();
+        // exits land in the bucket of the builds, or in the next (never used) bucket
+        clock::advance_ms(if second_bucket { 250 + rt_ms } else { rt_ms });
+        let rt_each = if second_bucket { 250 + rt_ms } else { rt_ms };
+        let hs: Vec<_> = entries.into_iter().map(|e| shuttle::thread::spawn(move || e.exit())).collect();
+        for h in hs {
+            h.join().unwrap();
+        }
+        let node = stat::get_resource_node(&res).expect("ORACLE: no-node: resource node missing after entries");
+        let arr = node.verif_global_array();
+        let now = clock::get_ms();
+        let n = threads as u64;
+        let check = |name: &str, pass: u64, comp: u64, rt: u64, conc: u32| {
+            if conc != 0 || pass != n || comp != n || rt != n * rt_each {
+                panic!("ORACLE: rt-totals-{}: pass={} complete={} rt={} in-flight={} but {} entries passed and completed with a response time of {} ms each", name, pass, comp, rt, conc, n, rt_each);
+            }
+        };
+        check("node", arr.count_with_time(now, MetricEvent::Pass), arr.count_with_time(now, MetricEvent::Complete), arr.count_with_time(now, MetricEvent::Rt), node.current_concurrency());
+        let min = node.min_rt();
+        if (min - rt_each as f64).abs() > 1e-9 {
+            panic!("ORACLE: min-rt: minimum response time reads {} but every entry took {} ms", min, rt_each);
+        }
+        outcome(format!("rt={} min={}", arr.count_with_time(now, MetricEvent::Rt), min));
+        if inbound {
+            let ib = stat::inbound_node();
+            let iarr = ib.verif_global_array();
+            check("inbound", iarr.count_with_time(now, MetricEvent::Pass), iarr.count_with_time(now, MetricEvent::Complete), iarr.count_with_time(now, MetricEvent::Rt), ib.current_concurrency());
+        }
+    })
+}
+
 pub fn scenarios(thorough: bool) -> Vec<Scenario> {
     let mut v = vec![];
+    let mut extra: Vec<Scenario> = vec![];
+    // concurrent exits with a non-zero response time
+    extra.push(Scenario { name: "exits-rt5-T2-out-same-bucket".into(), bound: 2, cap: 0, body: exits_with_rt(2, false, 5, false) });
+    extra.push(Scenario { name: "exits-rt5-T2-in-next-bucket".into(), bound: if thorough { 2 } else { 1 }, cap: 0, body: exits_with_rt(2, true, 5, true) });
+    if thorough {
+        extra.push(Scenario { name: "exits-rt5-T3-out-same-bucket".into(), bound: 2, cap: 0, body: exits_with_rt(3, false, 5, false) });
+        extra.push(Scenario { name: "exits-rt7-T2-in-same-bucket".into(), bound: 3, cap: 0, body: exits_with_rt(2, true, 7, false) });
+    }
     let mut add = |t: usize, p: usize, fresh: bool, inb: bool, cm: ClockMode, batch: u32, bound: u8| {
         v.push(Scenario {
             name: format!("T{}xP{}-{}-{}-{:?}-b{}", t, p, if fresh { "fresh" } else { "existing" }, if inb { "in" } else { "out" }, cm, batch),
@@ -135,6 +182,7 @@ pub fn scenarios(thorough: bool) -> Vec<Scenario> {
             add(2, 2, fresh, true, ClockMode::StepRing, 2, 2);
         }
     }
+    v.extend(extra);
     v
 }
 
